@@ -320,7 +320,7 @@ class Check:
                                "tier": self.tier, "replay": replay}, f, indent=1, default=str)
                 print("VIOLATION property=%s replay=%s" % (self.pid, path))
                 print("  key=%s: %s" % (key, what))
-                if len(seen) >= 10:
+                if len(seen) >= int(os.environ.get("VERIF_MAXREPORT", "10")):
                     break
             rc = 1
         self.log("done: states=%d transitions=%d traces=%d violations=%d known=%d wall=%.1fs" % (
